@@ -6,6 +6,7 @@ Loader results are symbolic tags `(loader name, sample index, call number)`.
 -/
 import KDVerif.Model.ModeWrapper
 import KDVerif.Lemmas.ModeWrapperPlan
+import KDVerif.Lemmas.ModeWrapperGet
 
 namespace KDVerif.C01
 open KDVerif.ModeWrapper
@@ -42,6 +43,47 @@ theorem joint_load_is_final (fusedOps : List (List String)) (items : List String
 theorem unfused_plan_is_mode_order (items : List String) (p : Nat) :
     (plan [] items)[p]? = items[p]?.map (fun it => Entry.single it p) :=
   plan_nofused_getElem? items p
+
+/-! ### end to end: what `mw[idx]` holds at every position -/
+
+/-- **position by position**: for every wrapper the constructor accepts (any mode string, any fused declaration),
+    every request index and every state of the instrumentation counter:
+    * the sample has one value per mode item;
+    * a loadable item's position holds the value of THAT item's loader for THIS sample, produced by a call made
+      during this request — whether it was loaded alone or as a component of a joint load;
+    * `index` positions hold the (normalised) index;
+    * a `ctx.<key>` position holds what the per-sample context held under that key at its turn
+      (a `KeyError` if nothing earlier recorded it);
+    * all members of a jointly loaded group hold components of ONE joint call, at their own mode positions. -/
+theorem getitem_positions (s : Stack) (mode : String) (rc : Bool) (mw : MW) (h : ctor s mode rc = .ok mw)
+    (c : Nat) (idx : Int) :
+    mw.items = mode.splitOn " " ∧
+    (unpacked s mw c idx).length = mw.items.length ∧
+    (∀ (p : Nat) (it : String), mw.items[p]? = some it → it ≠ "index" → isCtx it = false →
+      ∃ call, c ≤ call ∧ call < (getOne s mw c idx).2 ∧
+        (unpacked s mw c idx)[p]? = some (Val.tag it (normIndex s idx) call)) ∧
+    (∀ (p : Nat), mw.items[p]? = some "index" → (∀ f ∈ s.fused, "index" ∉ f) →
+      (unpacked s mw c idx)[p]? = some (Val.index (normIndex s idx))) ∧
+    (∀ (p : Nat) (it : String), mw.items[p]? = some it → isCtx it = true → (∀ f ∈ s.fused, it ∉ f) →
+      ∃ pre post, mw.entries = pre ++ Entry.single it p :: post ∧ (∀ e' ∈ post, ¬ covers e' p) ∧
+        (unpacked s mw c idx)[p]? =
+          some (runEntry s (normIndex s idx) (stAfter s (normIndex s idx) ⟨c, []⟩ pre) (Entry.single it p)).1 ∧
+        (unpacked s mw c idx)[p]? =
+          some (match ctxGet (stAfter s (normIndex s idx) ⟨c, []⟩ pre).ctx (it.drop 4).toString with
+                | some v => v
+                | none => Val.keyError (it.drop 4).toString)) ∧
+    (∀ (ops : List String) (poss : List Nat), Entry.fused ops poss ∈ mw.entries →
+      poss.length = ops.length ∧ poss.Nodup ∧
+      ∃ c₀, c ≤ c₀ ∧ c₀ < (getOne s mw c idx).2 ∧
+        ∀ (j q : Nat), poss[j]? = some q → ∃ o : String, ops[j]? = some o ∧ mw.items[q]? = some o ∧
+          (unpacked s mw c idx)[q]? = some (Val.tag o (normIndex s idx) c₀)) :=
+  ctor_getitem s mode rc mw h c idx
+
+/-- what the caller sees without `return_ctx`: the bare value for a one-item mode, else the tuple of the positions -/
+theorem getitem_returns_positions (s : Stack) (mw : MW) (c : Nat) (idx : Int) (hr : mw.returnCtx = false) :
+    (∀ v, unpacked s mw c idx = [v] → (getOne s mw c idx).1 = Out.bare v) ∧
+    ((unpacked s mw c idx).length ≠ 1 → (getOne s mw c idx).1 = Out.tuple (unpacked s mw c idx)) :=
+  getOne_out s mw c idx hr
 
 /-! ### index forms -/
 
